@@ -118,6 +118,8 @@ pub open spec fn npm_hyphen(f: Partial, t: Partial) -> Seq<KCmp> {
 }
 pub open spec fn wf_partial(p: Partial) -> bool {
     (p.major matches Some(x) ==> x <= MAX_SAFE_INTEGER) && (p.minor matches Some(x) ==> x <= MAX_SAFE_INTEGER) && (p.patch matches Some(x) ==> x <= MAX_SAFE_INTEGER)
+    // normalised where it is built (partial_version): a wildcard makes everything after it a wildcard
+    && (p.major is None ==> p.minor is None) && (p.minor is None ==> p.patch is None) && (p.patch is None ==> p.pre_release@.len() == 0 && p.build@.len() == 0)
 }
 pub open spec fn lower_cut(cs: Seq<KCmp>) -> Cut { if cs.len() == 0 { Cut::NegInf } else { match cs[0].op { Op::Ge => Cut::At(cs[0].k, false), Op::Gt => Cut::At(cs[0].k, true), Op::Eq => Cut::At(cs[0].k, false), _ => Cut::NegInf } } }
 pub open spec fn upper_cut(cs: Seq<KCmp>) -> Cut { if cs.len() == 0 { Cut::PosInf } else { let c = cs[cs.len() - 1]; match c.op { Op::Le => Cut::At(c.k, true), Op::Lt => Cut::At(c.k, false), Op::Eq => Cut::At(c.k, true), _ => Cut::PosInf } } }
